@@ -120,9 +120,9 @@ Definition fire_n (n : ncfg) (j : nat) (s : st) : st :=
       let s1 := set_jobs (del_nth (s_jobs s) j) s in
       let s1 := if s_now s <? j_at jb then set_early true s1 else s1 in
       match j_kind jb with
-      | JContinue => continue_task s1
-      | JComplete x i => complete_n n x i s1
-      | JTimeout => if is_completed (s_state s1) then s1 else complete_n n ERROR ITimeout s1
+      | JContinue => if state_eqb (s_state s1) RUNNING_DELAYED then continue_task s1 else s1
+      | JComplete x i => if state_eqb (s_state s1) RUNNING_DELAYED then complete_n n x i s1 else s1
+      | JTimeout => if is_completed (s_state s1) then s1 else complete_n n ERROR ITimeout (abandon s1)
       | JRefresh => s1
       end
   end.
@@ -525,17 +525,22 @@ Proof.
     destruct B1 as (C1 & C2 & C3 & C4).
     pose proof (Forall_nth _ _ _ _ (let '(conj _ (conj _ f)) := B in f) E) as Hjb.
     unfold jc_ok, is_cont in *. destruct (j_kind jb) as [|x i| |].
-    + assert (Q : length (s_acts (continue_task s1)) = S (length (s_acts s1)) /\ s_jobs (continue_task s1) = s_jobs s1 /\
+    + destruct (state_eqb (s_state s1) RUNNING_DELAYED); [|unfold Bnd; repeat split; auto; lia].
+      assert (Q : length (s_acts (continue_task s1)) = S (length (s_acts s1)) /\ s_jobs (continue_task s1) = s_jobs s1 /\
                   rnoN (continue_task s1) = rnoN s1 /\ s_state (continue_task s1) = RUNNING).
       { unfold continue_task, new_action, reset_actions. cbn. rewrite app_length, map_length. cbn.
         repeat split; auto; lia. }
       destruct Q as (Q1 & Q2 & Q3 & Q4). unfold Bnd, delta. rewrite Q1, Q2, Q3, Q4. cbn [is_idle state_eqb].
       unfold delta in C1. destruct (is_idle (s_state s1)); repeat split; auto; lia.
     + assert (B1 : Bnd n s1) by (unfold Bnd; repeat split; auto; lia).
+      destruct (state_eqb (s_state s1) RUNNING_DELAYED); [|exact B1].
       destruct (complete_rel n x i s1 Hjb) as (R & I). exact (rel_bnd _ _ _ B1 R I).
     + assert (B1 : Bnd n s1) by (unfold Bnd; repeat split; auto; lia).
       destruct (is_completed (s_state s1)); [exact B1|].
-      destruct (complete_rel n ERROR ITimeout s1 eq_refl) as (R & I). exact (rel_bnd _ _ _ B1 R I).
+      assert (B2 : Bnd n (abandon s1)).
+      { destruct B1 as (X1 & X2 & X3). unfold Bnd, delta, abandon. cbn [s_acts s_jobs s_state set_acts].
+        change (rnoN (set_acts _ s1)) with (rnoN s1). rewrite map_length. repeat split; auto. }
+      destruct (complete_rel n ERROR ITimeout (abandon s1) eq_refl) as (R & I). exact (rel_bnd _ _ _ B2 R I).
     + unfold Bnd; repeat split; auto; lia.
   - exact B.
 Qed.
@@ -584,6 +589,9 @@ Proof.
   assert (Q : s_state s1 = s_state s /\ s_waskip s1 = s_waskip s /\ s_now s1 = s_now s /\ s_wf s1 = s_wf s)
     by (unfold s1; destruct (_ <? _); repeat split; reflexivity).
   destruct Q as (Q1 & Q2 & Q3 & Q4). rewrite Q1, C.
+  assert (Q' : s_state (abandon s1) = s_state s /\ s_waskip (abandon s1) = s_waskip s /\ s_now (abandon s1) = s_now s /\
+               s_wf (abandon s1) = s_wf s) by (repeat split; assumption).
+  clear Q1 Q2 Q3 Q4. destruct Q' as (Q1 & Q2 & Q3 & Q4). set (s2 := abandon s1) in *. clearbody s2. clear s1. rename s2 into s1.
   unfold complete_n. rewrite Q1, C. unfold after_n, retry_n. rewrite R. cbn [N.eqb].
   unfold wa_n. cbn [s_waskip set_state]. rewrite Q2.
   destruct (n_wa n =? 0) eqn:W.
@@ -656,9 +664,11 @@ Proof.
     set (s1 := if s_now s <? j_at jb then _ else _).
     assert (Q : s_state s1 = s_state s) by (unfold s1; destruct (_ <? _); reflexivity).
     destruct (j_kind jb); try (rewrite Q; exact H).
-    + cbn. discriminate.
-    + apply complete_n_not_success; auto. rewrite Q; auto.
-    + destruct (is_completed (s_state s1)); [rewrite Q; auto|]. apply complete_n_not_success; auto. rewrite Q; auto.
+    + destruct (state_eqb (s_state s1) RUNNING_DELAYED); [cbn; discriminate|rewrite Q; exact H].
+    + destruct (state_eqb (s_state s1) RUNNING_DELAYED); [|rewrite Q; exact H].
+      apply complete_n_not_success; auto. rewrite Q; auto.
+    + destruct (is_completed (s_state s1)); [rewrite Q; auto|]. apply complete_n_not_success; auto.
+      change (s_state (abandon s1)) with (s_state s1). rewrite Q; auto.
 Qed.
 
 Theorem fail_on_never_success c evs : cfg_ok c = true -> n_fail (norm c) = true -> s_state (run c evs) <> SUCCESS.
